@@ -188,6 +188,19 @@ def vacuum_cases(seed=0):
     case2 = {"cls": "vacuum-isotropic", "seed": seed, "alpha": _jet_of_expr(al, syms, pt2), "beta": [J.Jet(), J.Jet(), J.Jet()],
              "gam": gam, "lam": F(0), "sd": p0 ** 6, "cr": p0 ** 4, "vacuum": True}
     out.append(case2)
+    # Minkowski sliced by T = t + h(t, x, y, z) (h cubic, grad h = 0 at the point): vacuum with lapse != 1, shift != 0, K != 0 and - unlike
+    # the two slicings above - a 3-Ricci scalar R = K_ij K^ij - K^2 that does not vanish
+    pt3 = (0, 0, 0, 0)
+    q = lambda a, b: sp.Rational(a, b)
+    h = (q(1, 8) * t + q(1, 4) * x * x - q(1, 8) * y * y + q(3, 8) * z * z + q(1, 4) * x * y - q(1, 8) * y * z + q(1, 8) * t * x + q(1, 4) * t * z
+         + q(1, 8) * t * t + q(1, 8) * x * x * y - q(1, 8) * t * y * z + q(1, 8) * t * t * x + q(1, 16) * z * z * z - q(1, 8) * t * x * x)
+    ht = sp.diff(h, t)
+    hi = [sp.diff(h, c) for c in (x, y, z)]
+    s2 = sum(c * c for c in hi)
+    gam3 = {k: _jet_of_expr((1 if k[0] == k[1] else 0) - hi[k[0]] * hi[k[1]], syms, pt3) for k in SYM}
+    case3 = {"cls": "vacuum-minkowski-gauge", "seed": seed, "alpha": _jet_of_expr((1 + ht) / sp.sqrt(1 - s2), syms, pt3),
+             "beta": [_jet_of_expr(-(1 + ht) * c / (1 - s2), syms, pt3) for c in hi], "gam": gam3, "lam": F(0), "sd": F(1), "cr": F(1), "vacuum": True}
+    out.append(case3)
     for c in out:
         c["phi"] = rand_jet(rng, F(3, 4), tdep=False)
         c["vec"] = [rand_jet(rng, rnd(rng), tdep=False) for _ in range(3)]
